@@ -617,3 +617,11 @@ Lemma obj_retry_swallow_refuted :
   retry_ok (class_proto obj_retry_swallow RKbd) = true /\
   retry_ok (class_proto obj_retry_swallow (RSub 1)) = true.
 Proof. vm_compute. auto 10. Qed.
+
+(** The entry prologue: today's is inert in every state without an open handle; the one keyed on the temp name (seeded
+    c12_5) is not — after any finished use the attribute still names tmp_N, which the next entry unlinks. *)
+Lemma entry_prologue_examples :
+  entry_inert obj_fixed prologue_fixed = true /\ entry_inert obj_fixed prologue_stale_name = false /\
+  exec prologue_stale_name None (env_of (o_attrs obj_fixed) [Some VNone; Some VTName; Some VDest] false) inert_k
+    = XUnlink (XDone false) (XDone true) (XDone false).
+Proof. vm_compute. auto. Qed.
